@@ -396,7 +396,7 @@ theorem wd_done_run {s : St} (h : Done s) (evs : List (Nat × Ev))
 
 /-! ### (c) a cut body is not a complete body -/
 
-theorem wd_cut {s : St} (h : Inv s) (n : Nat) (hs : s.shut = true) (hp : s.peerClosed = false)
+theorem wd_cut {s : St} (h : Inv s) (n : Nat) (hs : s.shut = true)
     (hq : s.queued = 0) (hb : s.buffered = 0) (hx : s.hasTx = true) : read s n = (.timedOut, s) := by
   have hf : s.wd = .fired := h.shut_fired hs
   have hfi : fireIfDue s = s := wd_fire_of_not_waiting (by rw [hf]; simp)
@@ -714,13 +714,18 @@ def wd_exec : St → List (Nat × Ev) → St
     | .read n => wd_exec (read s n).2 rest
     | .drop => wd_exec (dropResponse s) rest
 
+/-- reads have a non-empty buffer -/
+def wd_readPos : Ev → Bool
+  | .read 0 => false
+  | _ => true
+
 theorem wd_exec_reach (s : St) (evs : List (Nat × Ev))
-    (hn : ∀ e ∈ evs, ∀ n, e.2 = .read n → 0 < n) : Reach s (wd_exec s evs) := by
+    (hn : ∀ e ∈ evs, wd_readPos e.2 = true) : Reach s (wd_exec s evs) := by
   induction evs generalizing s with
   | nil => exact .refl s
   | cons e rest ih =>
     obtain ⟨t, ev⟩ := e
-    have hrest : ∀ e ∈ rest, ∀ n, e.2 = .read n → 0 < n := fun e he => hn e (List.mem_cons_of_mem _ he)
+    have hrest : ∀ e ∈ rest, wd_readPos e.2 = true := fun e he => hn e (List.mem_cons_of_mem _ he)
     have ra : Reach s (advance s t) := (Reach.refl s).step (.adv s t)
     cases ev with
     | send k =>
@@ -731,7 +736,12 @@ theorem wd_exec_reach (s : St) (evs : List (Nat × Ev))
         exact (ra.step (.send _ k (by simpa using hs))).trans (ih _ hrest)
     | close => exact (ra.step (.close _)).trans (ih _ hrest)
     | read k =>
-      exact (ra.step (.read _ k (hn (t, .read k) (List.mem_cons_self ..) k rfl))).trans (ih _ hrest)
+      have hk : 0 < k := by
+        have := hn (t, .read k) (List.mem_cons_self ..)
+        cases k with
+        | zero => simp [wd_readPos] at this
+        | succ k => omega
+      exact (ra.step (.read _ k hk)).trans (ih _ hrest)
     | drop => exact (ra.step (.drop _)).trans (ih _ hrest)
 
 theorem wd_run_append (s : St) (e1 e2 : List (Nat × Ev)) :
